@@ -80,6 +80,20 @@ def kernel_cases(seed, thorough=False):
             except CalculationError:
                 ok_f, detail = True, 'optimiser reported failure (no claim)'
             yield {'name': f"user_kernel_file|same_name_other_folder|{k}", 'ok': bool(ok_w and ok_f), 'detail': detail}
+        # the same kernel with its columns written in decreasing width order
+        rev = tmp + '/reversed.csv'
+        raw[raw.columns[::-1]].to_csv(rev)
+        pk = numpy.geomspace(1e-5, 0.9, 50)
+        wv = numpy.zeros(len(widths))
+        wv[20], wv[50] = 0.02, 0.01
+        lv = sum(wv[i] * numpy.asarray(kernel[s](pk), dtype=float) for i, s in enumerate(kernel))
+        try:
+            pw, dist, cum, fitted = PK.psd_dft_kernel_fit(pk, lv, rev, 0)
+            okr = bool(numpy.min(dist) >= -1e-9 and numpy.all(numpy.diff(pw) > 0) and numpy.all(numpy.diff(cum) >= -1e-9))
+            yield {'name': 'user_kernel_file|columns_in_decreasing_width_order', 'ok': okr,
+                   'detail': '' if okr else f"min distribution {float(numpy.min(dist)):.4g}; widths increasing: {bool(numpy.all(numpy.diff(pw) > 0))}"}
+        except CalculationError:
+            yield {'name': 'user_kernel_file|columns_in_decreasing_width_order', 'ok': True, 'detail': 'optimiser reported failure (no claim)'}
         again = PK._load_kernel(path)
         ok = numpy.allclose(numpy.asarray(list(again.keys()), dtype=float), widths)
         yield {'name': 'user_kernel_file|shipped_kernel_afterwards', 'ok': bool(ok), 'detail': ''}
